@@ -270,6 +270,22 @@ def main(pid, tier, seed):
             si, l, clause = v[1], v[2], v[3]
             w = dict(meta[t['tid']], clause=clause, session=si, event=l, trace=t)
             verdict.violation(w, 'clause %s at session %s event %s; %s' % (clause, si, l, core.short(meta[t['tid']], 200)))
+    # ---- the binding is not vacuous: corrupted copies of accepted traces must be rejected ----
+    def corrupt(t):
+        ev = t['sess'][-1]['ev']
+        if len(ev) < 2 or not t['exhausted']:
+            return None
+        if pid == 'C01':
+            i = next((k for k in range(len(ev) - 1) if ev[k]['r'] != ev[k + 1]['r']), None)
+            if i is None:
+                return None
+            ev[i], ev[i + 1] = ev[i + 1], ev[i]          # two emissions swapped: order violated
+            t['ev2'] = t['sess'][0]['ev']
+        else:
+            del ev[len(ev) // 2]                          # one emission removed: something is lost
+        return t
+    accepted = [t for t in ptraces if verdicts[t['tid']][0] == 'ACCEPT' and t.get('mode') != 'C01_prefix']
+    selftest = core.binding_selftest('TrPTQ.tla', accepted, corrupt)
     # ---- drift: I-layer conformance (never a verdict) ----
     iverd, ist = core.validate_traces('TrPTQ_I.tla', itraces) if itraces else ({}, {'states': 0, 'transitions': 0})
     drift = [(k, v) for k, v in iverd.items() if v[0] != 'ACCEPT']
@@ -294,7 +310,7 @@ def main(pid, tier, seed):
         'trace_validation': st,
         'impl_conformance': {'traces': len(itraces), 'states': ist.get('states', 0),
                              'result': 'drift' if drift else 'conforms', 'drift_examples': drift[:3]},
-        'exhaustive': False,
+        'exhaustive': False, 'binding_selftest': selftest,
         'known_findings_reproduced': n_known,
     }
     core.write_evidence(pid, tier, seed, 'model_checking', cov, time.time() - t0, violations=n_viol,
